@@ -90,7 +90,7 @@ def gen_cases(tier):
                         pairs.append((li, ti))
             for li, ti in pairs:
                 for form in ("absolute", "relative", "dot-relative"):
-                    for variant in ("other-names", "same-property", "same-section", "same-both", "target-kinds-share-a-name"):
+                    for variant in ("other-names", "same-property", "same-section", "same-both", "target-kinds-share-a-name", "same-definition"):
                         for mech in ("link", "include", "include-whole-file"):
                             if mech != "link" and form != "absolute":
                                 continue
@@ -143,6 +143,10 @@ def build_case(case, scratch):
                     path = "./" + path
             pre[li]["attrs"]["link"] = path
         tspec = pre[ti]
+        if case["variant"] == "same-definition":
+            # the linking Section's own definition and reference read like the target's (nothing is filled in by the
+            # merge, and clean must leave them alone)
+            pre[li]["attrs"]["definition"] = tspec["attrs"]["definition"]
         if case["variant"] == "target-kinds-share-a-name" and tspec["sections"]:
             # Sections and Properties have separate name spaces: the target owns a Property named like one of its
             # own sub-Sections (the linker shares no child name with it, so the restoration law applies)
@@ -248,7 +252,7 @@ def _run(case, scratch):
         fail("building-the-document-raises", "%s: %s" % (type(exc).__name__, exc))
         return {"failures": fails, "outcomes": ["build-raises"], "nontrivial": 1, "execs": 1}
     linkers = [l for l, _ in links]
-    shared_names = case["variant"] not in ("other-names", "target-kinds-share-a-name")
+    shared_names = case["variant"] not in ("other-names", "target-kinds-share-a-name", "same-definition")
     for k, (l, t) in enumerate(links):
         ts, tp = target_children(case, links, include_doc, k)
         ls, lp = tree.children(l)
